@@ -708,6 +708,82 @@ def oracle(R):
             if np.abs(a - b).max() > 1e-7:
                 fail("mt.coherence", "gain", "multitaper coherence changes under channel gains",
                      float(np.abs(a - b).max()), 0)
+    fails.extend(access_order_fails(R, check_coh))
+    return fails
+
+
+# ------------------------------------------------------------------ analyzers read in any order
+AN_ATTRS = ["coherency", "spectrum", "frequencies", "coherence", "phase", "delay", "coherence_partial"]
+MT_ATTRS = ["tapers", "eigs", "df", "spectra", "weights", "coherence", "confidence_interval", "frequencies"]
+
+
+def _same(a, b):
+    a, b = np.asarray(a), np.asarray(b)
+    return a.shape == b.shape and np.array_equal(a, b, equal_nan=True)
+
+
+def access_order_fails(R, check_coh):
+    """The analyzers' public results are read in a seeded random order (two shuffled passes over ALL of them);
+    arrays handed out earlier must keep their values, re-reads must return the values of a pristine analyzer
+    (whose results carry the property checks), whatever was read in between."""
+    import random
+    from nitime.timeseries import TimeSeries
+    from nitime.analysis import CoherenceAnalyzer, MTCoherenceAnalyzer
+    d = R.d
+    fails = []
+    rnd = random.Random(d["seed"] * 7 + 1)
+    Fs = d["method"]["Fs"]
+    jobs = []
+    m = dict(d["method"])
+    pristine_an = {"coherency": R.an["coherency"], "spectrum": R.an["spectrum"], "frequencies": R.an["frequencies"],
+                   "coherence": R.an["coherence"], "phase": R.an["phase"], "delay": R.an["delay"]}
+    if R.partial_ok:
+        pristine_an["coherence_partial"] = R.an["partial"]
+    unwrap = rnd.random() < 0.3
+    jobs.append(("an", lambda: CoherenceAnalyzer(TimeSeries(R.x, sampling_rate=Fs), method=dict(m), unwrap_phases=unwrap),
+                 AN_ATTRS, pristine_an, ["delay"] if unwrap else []))
+    if d["N"] <= 300:
+        for adaptive in (True, False):
+            P = MTCoherenceAnalyzer(TimeSeries(R.x, sampling_rate=Fs), adaptive=adaptive)
+            c0 = np.array(P.coherence)
+            check_coh("mt.coherence", c0)
+            pr = {"coherence": c0, "confidence_interval": np.array(P.confidence_interval), "df": P.df,
+                  "frequencies": np.array(P.frequencies)}
+            jobs.append(("mt", (lambda ad=adaptive: MTCoherenceAnalyzer(TimeSeries(R.x, sampling_rate=Fs), adaptive=ad)),
+                         MT_ATTRS, pr, []))
+    for tag, make, attrs, pristine, skip in jobs:
+        B = make()
+        order = rnd.sample(attrs, len(attrs)) + rnd.sample(attrs, len(attrs))
+        handed, snap = {}, {}
+        done = False
+        for a in order:
+            try:
+                v = getattr(B, a)
+            except Exception as e:
+                fails.append(Fail("C08/%s.%s/access-order" % (tag, a), "reading %s after %s raised %s" % (
+                    a, sorted(handed), type(e).__name__), None, None, {"entry_point": "%s.%s" % (tag, a), "order": order}))
+                break
+            if a not in handed:
+                handed[a] = v
+                snap[a] = np.array(v, copy=True)
+            for h in handed:          # nothing handed out earlier may have changed
+                if not _same(handed[h], snap[h]):
+                    fails.append(Fail("C08/%s.%s/access-order" % (tag, h),
+                                      "the array returned by .%s was changed in place when .%s was read" % (h, a),
+                                      None, "unchanged", {"entry_point": "%s.%s" % (tag, h), "order": order}))
+                    done = True
+                    break
+            if done:
+                break
+            if a in pristine and a not in skip:
+                pv, vv = np.asarray(pristine[a]), np.asarray(v)
+                ok = pv.shape == vv.shape and np.allclose(vv, pv, rtol=1e-12, atol=0, equal_nan=True)
+                if not ok:
+                    fails.append(Fail("C08/%s.%s/access-order" % (tag, a),
+                                      ".%s read after %s differs from its value on a fresh analyzer" % (a, [x for x in order[:order.index(a)]]),
+                                      None if pv.shape != vv.shape else float(np.nanmax(np.abs(vv - pv))), 0,
+                                      {"entry_point": "%s.%s" % (tag, a), "order": order}))
+                    break
     return fails
 
 
